@@ -97,7 +97,12 @@ func (o *Opts) Pick(q, t int) int {
 func (o *Opts) Elapsed() float64 { return time.Since(o.Start).Seconds() }
 
 // Cleanup removes the scratch directory.
-func (o *Opts) Cleanup() { _ = os.RemoveAll(o.Work) }
+func (o *Opts) Cleanup() {
+	if os.Getenv("VERIF_KEEP") != "" {
+		return // debugging: the scratch directory stays
+	}
+	_ = os.RemoveAll(o.Work)
+}
 
 // Violation prints the verdict line the harness greps for.
 func Violation(prop, replay string) {
